@@ -185,6 +185,12 @@ func c08Judge(c *Ctx, what, sigBase, theorem, req string, orders []string, cs c0
 	c.Res.ModelCompared++
 	known := cs.Stream == "spaces"
 	if len(distinct) > 1 {
+		if known && !ok {
+			// without the model the known collision cannot be told from a new defect; the dead
+			// driver is reported on its own (plain stream), so do not guess here
+			c.Res.Hit("known-stream-unclassified")
+			return
+		}
 		if known && ties > 0 {
 			// fmt.Sprint(NodeInfo) cannot separate infos whose strings contain spaces
 			c.Violation("C08/compareNodes/sprint-collision", what+": distinct NodeInfos whose fmt.Sprint renderings coincide are left unordered ("+strconv.Itoa(len(distinct))+" different results over shuffles)", cs)
